@@ -41,20 +41,22 @@ CLAIM = {
              "op list, cooldown history, turn and caps (0 < cap_l2, 0 <= k) the approved list has unique targets, |delta| <= novelty cap, "
              "sum of squares <= cap_l2^2, length <= k with top-K dominance under (-|delta|, ckey), no recorded provenance in cooldown, only "
              "proposed targets, strict canonical order; blocked ops reported ascending; merge = per-key sum in canonical order (pipeline spec); "
-             "permutation invariance of the whole result for EVERY totally ordered carrier (no associativity: covers Float without NaN) under "
-             "injective ckeys, with a machine-checked witness that it fails for colliding ckeys. "
+             "permutation invariance of the whole result for EVERY input and EVERY totally ordered carrier (no associativity, no hypothesis on "
+             "target names: the canonical key is proved injective; covers Float without NaN). "
              "The same definitions run at Float in the driver and agree bit-for-bit with the real t4_filter; the Bool predicates the theorems "
              "are about are evaluated by Lean on the real T4Result."),
     "note": ("Proved at ordered fields with sqrt as a parameter (laws as hypotheses); IEEE rounding is not a field: novelty/churn/cooldown/"
              "subset/sorted/unique are monitored exactly at Float, the L2 cap with slack 1e-9 (float-gap probe reports how often the exact "
              "predicate is off by rounding). Order-independence under float addition was false of the original code ([1e16,1,-1e16]); repaired by "
-             "proposed_fixes/C03_combine_sum_canonical_order.diff (regression case in corpus, monitor key order.float-sum). It is still false "
-             "for colliding string ckeys (known finding, negation witness in Lean, reproduced on the real code). 'Depends on nothing but its arguments' "
+             "proposed_fixes/C03_combine_sum_canonical_order.diff (regression case in corpus, monitor key order.float-sum); colliding display strings "
+             "(ids/attrs containing ':') merged distinct targets: repaired by proposed_fixes/C03_t4_order_ckey-collision.diff (key = tuple, string "
+             "order kept; regression case in corpus, monitor key order.ckey-collision, Lean witness C03_collision_targets_kept_apart). 'Depends on nothing but its arguments' "
              "is a theorem of the model (a function) and is tied to the code by the HISTORY stream (call sequences on reused, in-place edited objects "
              "vs fresh objects; module-level memo/stale-state bugs show as history_dependence). Purity, argument shapes "
              "(_get_cfg, _get_plan_*, _get_last_turn_map, _get_turn, _get_op_kind) and metrics.caps are covered by correspondence only. "
-             "`delta_norm_cap_l2 = NaN` is accepted by the validator and makes every approved delta NaN (finding, belongs with C14); "
-             "`delta_norm_cap_l2 < 1e-150` (accepted too) lets squares underflow so the L2 cap is not enforced (finding l2.tiny-cap)."),
+             "`delta_norm_cap_l2 = NaN` was accepted by the validator (fixed 0c7ad1a). `delta_norm_cap_l2 < 1e-150` let the squares underflow so "
+             "the L2 cap was not enforced: repaired by proposed_fixes/C03_t4_l2_tiny-cap.diff (_l2_norm factors out the largest magnitude when "
+             "the sum of squares is below 2^-512; bit-identical above; regression case in corpus, monitor key l2.tiny-cap, theorem C03_l2_norm_exact)."),
     "technique": "Lean 4 theorems over a generic ordered field about the executable pipeline model + bit-exact differential execution at Float + Lean-evaluated monitors on the real T4Result",
     "design_ref": "DESIGN.md §4 C03, §2.3, §5 row 13",
 }
@@ -62,7 +64,7 @@ MODELLED = {
     "clematis/engine/stages/t4.py": [
         "t4_filter", "_get_cfg", "_get_plan_ops", "_get_plan_deltas", "_canonical_key", "_combine_by_ckey",
         "_sum_canonical", "_min_optional_int", "_collect_blocked_ops", "_get_turn", "_get_last_turn_map", "_map_get", "_get_op_kind",
-        "_novelty_clamp", "_l2_scale", "_churn_cap"],
+        "_novelty_clamp", "_l2_scale", "_l2_norm", "_churn_cap"],
 }
 TRUSTED = ["modelled, not verified: IEEE-754 rounding of + * / sqrt (Lean Float = CPython float on this image, probed by the exact correspondence); "
            "CPython str comparison = code-point lexicographic; dict insertion order; sorted() stability"]
@@ -444,6 +446,10 @@ class T4Comp(Component):
         mags = [nov, nxt(nov, True), nxt(nov, False), nov / 2, 2 * nov, 0.1, 0.2, 0.05, 0.0, -0.0, 1e-320, 5e-324, 1.0]
         if stream in ("boundary", "floatsum", "malformed"):
             mags += [1e16, 1e308, 1e-160, 3e-162, 0.30000000000000004, 1e-17]
+        if stream == "boundary" and rng.random() < 0.35:
+            # around the switch of _l2_norm (sum of squares 2^-512, i.e. magnitudes ~2^-256) and below
+            b = 2.0 ** -256
+            mags = [b, nxt(b, True), nxt(b, False), b / 2, b * 0.75, b * 1.5, b / 1.4142135623730951, 1e-160, 1e-200, 1e-310, 5e-324, 0.0]
         nd = rng.choice([0, 1, 2, 3, 5, 8, 13, 20])
         deltas = []
         shared = rng.choice(mags)
@@ -506,10 +512,10 @@ class T4Comp(Component):
         if stream == "malformed" and rng.random() < 0.25:
             k = rng.choice([-1, -2, -ndist - 1])
         # L2 cap around the plan's own (unblocked) norm
-        grp: Dict[str, List[float]] = {}
+        grp: Dict[Any, List[float]] = {}
         for d in deltas:
-            grp.setdefault(ckey_s(d), []).append(float(vs_decode(d["delta"])))
-        acc: Dict[str, float] = {}
+            grp.setdefault((d["kind"], d["id"], d["attr"]), []).append(float(vs_decode(d["delta"])))
+        acc: Dict[Any, float] = {}
         for kk, vals in grp.items():
             vals = sorted(vals)
             tot = vals[0]
@@ -517,11 +523,20 @@ class T4Comp(Component):
                 tot += v
             acc[kk] = tot
         s = 0.0
+        cl = []
         for v in acc.values():
             c = abs(nov)
             v = (c if v > 0 else -c) if abs(v) > c else v
+            cl.append(v)
             s += v * v
         norm = math.sqrt(s)
+        mx = max([abs(v) for v in cl], default=0.0)
+        if s < 2.0 ** -512 and 0 < mx < math.inf:  # the repaired _l2_norm's small-magnitude path
+            t = 0.0
+            for v in cl:
+                t += (v / mx) * (v / mx)
+            norm = mx * math.sqrt(t)
+        tiny_vals = any(0 < abs(v) < 1e-140 for v in cl)
         l2s = [1.5, 1.5, 0.3, 1.0, 0.1]
         if norm > 0 and math.isfinite(norm):
             l2s += [norm, nxt(norm, True), nxt(norm, False), norm / 2, norm * 2, norm / 3, norm * 0.999999, norm * 0.9999995]
@@ -530,7 +545,8 @@ class T4Comp(Component):
         l2 = rng.choice(l2s)
         if stream == "nancap":
             l2 = math.nan
-        if stream == "malformed" and rng.random() < 0.2:
+        if stream == "malformed" and rng.random() < 0.2 and not tiny_vals:
+            # (a non-positive cap over denormal magnitudes overflows cap/norm to -inf and 0*inf = NaN: NaN is out of scope)
             l2 = rng.choice([0.0, -1.0, -0.1])
         cfg: Dict[str, Any] = {"delta_norm_cap_l2": f2b(l2), "novelty_cap_per_node": f2b(nov), "churn_cap_edges": k,
                                "cooldowns": cds}
